@@ -6,6 +6,7 @@ CONSTANTS
   Types = {"result"}
   OpenKinds = {"plain", "smr", "resumed"}
   Cids = {"fresh", "empty", "dup"}
+  Bodies = {"none"}
   Attempts = {}
   IdRule = "replace"
   MaxHist = 7
